@@ -317,6 +317,17 @@ def stress_jobs(ctx, rng):
             jobs.append({"kind": "stress", "target": target, "opts": opts, "queries": pool, "programs": progs,
                          "api": rng.choice(["tree", "path"]) if not target.startswith("preset") else "tree",
                          "switch": 1e-6, "timeout": 100, "tag": "stress:%s" % target})
+    # threads that run one after the other (thread idents get recycled)
+    for target, opts in [
+        ("reusable-hyper", {"max_repeats": 3, "methods": ["greedy"]}),
+        ("reusable-rg", {"max_repeats": 4}),
+        ("auto", {"cache": True, "optimal_cutoff": 0, "max_repeats": 3}),
+        ("auto", {"cache": False, "optimal_cutoff": 0, "max_repeats": 3}),
+        ("preset:auto", {}),
+    ]:
+        progs = [[rng.randrange(len(pool)) for _ in range(3)] for _ in range(4)]
+        jobs.append({"kind": "stress", "target": target, "opts": opts, "queries": pool, "programs": progs,
+                     "api": "tree", "serial": True, "timeout": 100, "tag": "serial-threads:%s" % target})
     return jobs
 
 
@@ -383,6 +394,9 @@ def run(ctx):
                 prog = job["programs"][b["thread"]]
                 upto = b.get("step")
                 earlier = set(prog if upto is None else prog[:upto])
+                if job.get("serial"):      # a recycled thread ident inherits the dead thread's optimizer
+                    for p_ in job["programs"][:b["thread"]]:
+                        earlier |= set(p_)
             else:
                 earlier = set(job["history"][:b["step"]])
             key = KEY_STALE if stale_match(job, b, earlier) else None
@@ -394,6 +408,8 @@ def run(ctx):
             ctx.fail("%s: query %r through %s(%r) got a result that does not belong to it: %s" % (
                 what_kind, b.get("query"), job["target"], job.get("opts"), b.get("what") or b.get("raised")),
                 rep, key=key, found_input=True)
+        if r.get("idents_reused"):
+            ctx.count("thread-ident-recycled")
         if r.get("alive"):
             ctx.fail("stress threads did not finish: %r" % (r["alive"],), {"job": strip(job)}, found_input=False)
         if r.get("idents_distinct") is False:
